@@ -75,9 +75,19 @@ ENGINE_RULE = ("configs from an OPL-shaped grammar (1-4 namespaces, related rela
                "distinct = distinct protocol lines")
 
 PROPS = {
+    "C03": {
+        "lean_module": "Keto.Props.C03",
+        "theorems": ["Keto.C03_no_allow_pos", "Keto.C03_single_error_never_allowed", "Keto.C03_invert_keeps_error",
+                     "Keto.C03_and_error_not_member", "Keto.C03_error_never_member", "Keto.C03_checkIsMember_true",
+                     "Keto.build_err_not_member"],
+        "streams": [{"name": "engine-c03", "n": {"quick": 150, "thorough": 1500}, "oracle": oracle_c03, "thorough_seeds": 3}],
+        "rule": ENGINE_RULE + "; for every generated case the k-th storage call fails for every k up to min(N,14), transiently and persistently",
+        "partial": "",
+        "assumptions": [],
+    },
     "C01": {
         "lean_module": "Keto.Props.C01",
-        "theorems": ["Keto.C01_depth_sites_tie"],
+        "theorems": ["Keto.C01_depth_sites_tie", "Keto.C01_sound_pos", "Keto.build_sound", "Keto.Cfg.pos_of_posB"],
         "streams": [{"name": "engine-c01", "n": {"quick": 250, "thorough": 3000}, "oracle": oracle_c01, "thorough_seeds": 3}],
         "rule": ENGINE_RULE,
         "partial": "",
@@ -85,7 +95,7 @@ PROPS = {
     },
     "C02": {
         "lean_module": "Keto.Props.C02",
-        "theorems": ["Keto.C02_effDepth_bounds", "Keto.C02_clamp", "Keto.C02_clamp_explicit"],
+        "theorems": ["Keto.C02_effDepth_bounds", "Keto.C02_clamp", "Keto.C02_clamp_explicit", "Keto.C02_fail_closed_pos"],
         "streams": [{"name": "engine-c02", "n": {"quick": 40, "thorough": 500}, "oracle": oracle_c02, "thorough_seeds": 3}],
         "rule": ENGINE_RULE + "; every stored state is checked over a grid of (request depth, global depth, width)",
         "partial": "",
